@@ -12,4 +12,8 @@ Spec == Init /\ [][Next]_vars
 OpIsDoc == MatchOrderOp(o1, r1, o2, r2) = res
 Symmetric == MatchOrderDoc(o2, r2, o1, r1) = res
 SameOrderSameResidue == (o1 = o2 /\ o1.k # "num") => (res = (r1 = r2))
+\* the typed copies that Apalache proves correct for all integers (LinksOrderApa) are the operators used here
+A == INSTANCE LinksOrderApa
+ApaIsTheSame == /\ A!MatchOrderOp(o1, r1, o2, r2) = MatchOrderOp(o1, r1, o2, r2)
+                /\ A!MatchOrderDoc(o1, r1, o2, r2) = MatchOrderDoc(o1, r1, o2, r2)
 =============================================================================
